@@ -5,8 +5,8 @@
    inet_pton are oracle functions (record [oracles]); UTF-8 is proved, not assumed. *)
 From Coq Require Import String.
 From Boltons Require Import Lib.Prelude Lib.C06_Text Spec.C06_Spec Model.C06_Model Gen.C06_Gen
-  Proofs.C06_Codec Proofs.C06_Utf8 Proofs.C06_Quote Proofs.C06_Lists Proofs.C06_Round Proofs.C06_Total
-  Proofs.C06_GenOk.
+  Proofs.C06_Codec Proofs.C06_Utf8 Proofs.C06_Quote Proofs.C06_Lists Proofs.C06_Round Proofs.C06_Legal
+  Proofs.C06_Total Proofs.C06_GenOk.
 Open Scope N_scope.
 
 (* (T) the regenerated tables: every map entry is the byte itself or %XX, a byte is left
@@ -116,6 +116,99 @@ Example C06_ex_roundtrip :
      = MOk (u_user u, u_pass u, u_path u, u_query u, u_frag u).
 Proof. vm_compute. split; reflexivity. Qed.
 
+(* THE ROUND TRIP FOR IPv6 HOSTS: a host with a ':' (rendered in brackets whatever the family
+   attribute says), none of ] @ / ? #, accepted by inet_pton(AF_INET6) *)
+Theorem C06_roundtrip_v6 : forall T O, tables_ok T = true ->
+  forall scheme sep user pw fam host port rest q frag h2,
+  let nfc := o_nfc O in
+  let u := mkU scheme sep user pw fam host port ([] :: rest) q frag in
+  scheme <> [] -> forallb (not_in [58; 47; 63; 35]) scheme = true ->
+  nfc [] = [] ->
+  all_scalar (nfc user) = true -> all_scalar (nfc pw) = true -> all_scalar (nfc frag) = true ->
+  Forall (fun s => all_scalar (nfc s) = true) rest ->
+  Forall (pair_ok O) q ->
+  memN 58 host = true -> forallb (not_in [93; 64; 47; 63; 35]) host = true ->
+  o_inet6 O host = MOk V6Ok -> decode_host O host = MOk h2 ->
+  match port with Some p => (0 <= p < 65536)%Z | None => True end ->
+  exists full u',
+    to_text T O true u = MOk full /\ url_init T O full = MOk u' /\
+    u_user u' = nfc user /\ u_pass u' = nfc pw /\ u_path u' = map nfc ([] :: rest) /\
+    u_query u' = map (fun kv => (nfc (fst kv), option_map nfc (snd kv))) q /\ u_frag u' = nfc frag /\
+    u_scheme u' = scheme /\ u_family u' = 6 /\ u_host u' = h2 /\ u_port u' = port_back T u.
+Proof. exact roundtrip_v6. Qed.
+Print Assumptions C06_roundtrip_v6.
+
+Example C06_ex_roundtrip_v6 :
+  let O := mkOracles (fun s => s) (fun s => MOk s) (fun s => MOk s) (fun _ => MOk false)
+                     (fun _ => MOk V6Ok) (fun _ => MOk None) in
+  let u := mkU (Tx "http") false (Tx "u") [] 0 (Tx "2001:db8::1") (Some 8080%Z) [[]; Tx "a b"] [] (Tx "f") in
+  to_text gen_tables O true u = MOk (Tx "http://u@[2001:db8::1]:8080/a%20b#f")
+  /\ (do u' <- url_init gen_tables O (Tx "http://u@[2001:db8::1]:8080/a%20b#f");
+      MOk (u_user u', u_family u', u_host u', u_port u', u_path u', u_frag u'))
+     = MOk (Tx "u", 6, Tx "2001:db8::1", Some 8080%Z, [[]; Tx "a b"], Tx "f").
+Proof. vm_compute. split; reflexivity. Qed.
+
+(* LEGAL AT EVERY POSITION: the fully quoted text of a URL of the round-trip class (reg-name / IPv4 /
+   IDNA-encoded host) is a well-formed RFC 3986 URI in the sense of Spec.wf_ref: scheme, userinfo,
+   reg-name, port digits, path, query and fragment each use only their own characters and complete
+   %XX triples.  (wf_ref is also what [holds] evaluates on the implementation's rendered text.) *)
+Theorem C06_rendered_legal : forall T O, tables_ok T = true ->
+  forall scheme sep user pw fam host port rest q frag ht,
+  let nfc := o_nfc O in
+  let u := mkU scheme sep user pw fam host port ([] :: rest) q frag in
+  scheme_ok scheme = true -> forallb (not_in [58; 47; 63; 35]) scheme = true ->
+  nfc [] = [] ->
+  all_scalar (nfc user) = true -> all_scalar (nfc pw) = true -> all_scalar (nfc frag) = true ->
+  Forall (fun s => all_scalar (nfc s) = true) rest ->
+  Forall (pair_ok O) q ->
+  host <> [] -> (fam =? 6) = false -> memN 58 host = false -> o_idna_enc O host = MOk ht ->
+  ht <> [] -> forallb (not_in [58; 64; 47; 63; 35]) ht = true -> legal (ok_regname false) ht = true ->
+  match port with Some p => (0 <= p < 65536)%Z | None => True end ->
+  forall full, to_text T O true u = MOk full -> wf_ref false full = true.
+Proof. exact rendered_legal. Qed.
+Print Assumptions C06_rendered_legal.
+
+(* FIXED POINT, FULL QUOTING, on the round-trip class: parsing the rendered text and rendering again
+   gives the same text (render o parse o render = render).  Extra oracle laws: NFC is idempotent and
+   only the empty text normalises to the empty text; the decoded host encodes to the same text again.
+   _partial: the property claims this for EVERY well-formed URL or reference t (render (parse t)
+   in place of render u); the general statement is kept below and is checked per case. *)
+Theorem C06_fixpoint_full_partial : forall T O, tables_ok T = true ->
+  forall scheme sep user pw fam host port rest q frag ht b4 h2,
+  let nfc := o_nfc O in
+  let u := mkU scheme sep user pw fam host port ([] :: rest) q frag in
+  scheme <> [] -> forallb (not_in [58; 47; 63; 35]) scheme = true ->
+  nfc [] = [] -> (forall x, nfc (nfc x) = nfc x) -> (forall x, nfc x = [] -> x = []) ->
+  all_scalar (nfc user) = true -> all_scalar (nfc pw) = true -> all_scalar (nfc frag) = true ->
+  Forall (fun s => all_scalar (nfc s) = true) rest ->
+  Forall (pair_ok O) q ->
+  host <> [] -> (fam =? 6) = false -> memN 58 host = false -> o_idna_enc O host = MOk ht ->
+  ht <> [] -> forallb (not_in [58; 64; 47; 63; 35]) ht = true -> o_inet4 O ht = MOk b4 ->
+  (if all_ascii ht then o_idna_dec O ht = MOk h2 else h2 = ht) ->
+  h2 <> [] -> memN 58 h2 = false -> o_idna_enc O h2 = MOk ht ->
+  match port with Some p => (0 <= p < 65536)%Z | None => True end ->
+  forall full u', to_text T O true u = MOk full -> url_init T O full = MOk u' ->
+  to_text T O true u' = MOk full.
+Proof. exact fixpoint_full_class. Qed.
+Print Assumptions C06_fixpoint_full_partial.
+
+Theorem C06_fixpoint_full_v6_partial : forall T O, tables_ok T = true ->
+  forall scheme sep user pw fam host port rest q frag,
+  let nfc := o_nfc O in
+  let u := mkU scheme sep user pw fam host port ([] :: rest) q frag in
+  scheme <> [] -> forallb (not_in [58; 47; 63; 35]) scheme = true ->
+  nfc [] = [] -> (forall x, nfc (nfc x) = nfc x) -> (forall x, nfc x = [] -> x = []) ->
+  all_scalar (nfc user) = true -> all_scalar (nfc pw) = true -> all_scalar (nfc frag) = true ->
+  Forall (fun s => all_scalar (nfc s) = true) rest ->
+  Forall (pair_ok O) q ->
+  memN 58 host = true -> forallb (not_in [93; 64; 47; 63; 35]) host = true ->
+  o_inet6 O host = MOk V6Ok -> decode_host O host = MOk host ->
+  match port with Some p => (0 <= p < 65536)%Z | None => True end ->
+  forall full u', to_text T O true u = MOk full -> url_init T O full = MOk u' ->
+  to_text T O true u' = MOk full.
+Proof. exact fixpoint_full_v6. Qed.
+Print Assumptions C06_fixpoint_full_v6_partial.
+
 (* TOTALITY (model): URL(text) returns a URL or raises URLParseError, for every text, all tables
    and all codec answers (inet_pton's failures are caught in parse_host, so that oracle answers
    rather than raises; int() of a non-ASCII port string is an oracle answering Some z / None) *)
@@ -123,12 +216,19 @@ Theorem C06_total : forall T O, oracle_total O -> forall s, only_parse_error (ur
 Proof. exact url_init_total. Qed.
 Print Assumptions C06_total.
 
-(* NOT YET PROVED (full statements kept visible; Coq checks them on the implementation's
-   observations for every generated case through roundtrip_ok / parse_ok):
+(* when every codec answers (ok or error), URL(text) is a URL or URLParseError: nothing else, and
+   nothing outside the model *)
+Theorem C06_total_strict : forall T O, oracle_answers O -> forall s, url_or_parse_error (url_init T O s).
+Proof. exact url_init_total_strict. Qed.
+Print Assumptions C06_total_strict.
 
-   C06_roundtrip for IPv6 hosts ('[' host ']' branch of get_authority / parse_url), and its last
-     conjunct  wf_ref false full = true  (every character of the rendered URL legal at its position;
-     per component this is C06_quote_legal).
-   C06_fixpoint_full : wf_ref true t -> url_init T O t = MOk u -> to_text T O true u = MOk t1 ->
+(* NOT YET PROVED (full statements kept visible; Coq checks them on the implementation's
+   observations for every generated case through parse_ok):
+
+   C06_fixpoint_full : forall t, wf_ref true t = true -> url_init T O t = MOk u ->
+     to_text T O true u = MOk t1 ->
      exists u1, url_init T O t1 = MOk u1 /\ to_text T O true u1 = MOk t1.
-   C06_fixpoint_min : same with full_quote=False when no decoded component contains '%'. *)
+     (proved above only for t1 = the rendering of a URL of the round-trip class, i.e. with scheme
+      and authority; relative references, scheme-only and authority-less forms are checked per case)
+   C06_fixpoint_min : same with full_quote=False when no decoded component contains '%'.
+   C06_rendered_legal for IPv6 hosts (Spec.ipliteral_port_ok). *)
